@@ -24,6 +24,12 @@ def sh(cmd, cwd=None, timeout=3600):
     return p.returncode, (p.stdout + p.stderr)
 
 
+def _patch(dst):
+    """patch_rebased.diff, when the line the change edits was itself repaired later (see meta.json 'rebased')"""
+    r = os.path.join(dst, "patch_rebased.diff")
+    return r if os.path.exists(r) else os.path.join(dst, "patch.diff")
+
+
 def verify(src, mid, tests):
     dst = os.path.join(VERIF, "seeded", mid)
     os.makedirs(dst, exist_ok=True)
@@ -46,7 +52,7 @@ def verify(src, mid, tests):
         shutil.copy(os.path.join(dst, "demo.py"), os.path.join(wt, "_seeded", "x", "demo.py"))
         rc, out = sh(f"PYTHONPATH={wt} {PY} _seeded/x/demo.py", cwd=wt, timeout=3600)
         res["demo_without_patch_rc"] = rc
-        rc, out = sh(f"git apply {dst}/patch.diff", cwd=wt)
+        rc, out = sh(f"git apply {_patch(dst)}", cwd=wt)
         res["patch_applies"] = rc == 0
         rc, out = sh(f"PYTHONPATH={wt} {PY} _seeded/x/demo.py", cwd=wt, timeout=3600)
         res["demo_with_patch_rc"] = rc
@@ -80,7 +86,7 @@ def detect(mid, checks, budget):
     rc, out = sh(f"git -C /repo worktree add --detach {wt} HEAD")
     results = {}
     try:
-        rc, out = sh(f"git apply {dst}/patch.diff", cwd=wt)
+        rc, out = sh(f"git apply {_patch(dst)}", cwd=wt)
         if rc != 0:
             print(mid, "patch does not apply to the current HEAD", out[:300])
             results["_patch"] = {"rc": 2, "first": [out[:200]]}
